@@ -1,0 +1,61 @@
+/**
+ * @file verif_hooks.h
+ * Observation hooks for external verification tooling.
+ * Everything here is compiled only with -DUNCRUSTIFY_VERIF and is active
+ * only when the environment variable UNC_VERIF_OUT names a file.
+ * The hooks never change the chunk list, the options or the control flow.
+ *
+ * @license GPL v2+
+ */
+#ifndef VERIF_HOOKS_H_INCLUDED
+#define VERIF_HOOKS_H_INCLUDED
+
+#ifdef UNCRUSTIFY_VERIF
+
+#include "chunk.h"
+
+#include <cstddef>
+
+//! true if UNC_VERIF_OUT is set
+bool verif_active();
+
+//! dump the whole chunk list; 'point' names the pipeline position
+void verif_dump_chunks(const char *point);
+
+//! dump the process-global state that outlives one file
+void verif_dump_digest(const char *point);
+
+//! remember the last rule name handed to log_rule()
+void verif_note_rule(const char *rule);
+
+//! index the chunk list for the space records
+void verif_space_begin();
+
+//! one record per pair handled in space_text()
+void verif_space(const Chunk *first, const Chunk *second, int av, int min_sp, size_t col_before, size_t col_after);
+
+//! marks the chunk output_text() is about to emit
+void verif_out_chunk(const Chunk *pc);
+
+//! one raw write_char() from add_text(..., is_ignored)
+void verif_out_raw(int ch);
+
+//! end of output_text()
+void verif_out_end();
+
+//! logs top-level add_char() calls, not the recursive ones
+struct verif_addchar_scope
+{
+   verif_addchar_scope(unsigned int ch, bool is_literal);
+   ~verif_addchar_scope();
+};
+
+#define VERIF_HOOK(stmt)    do { stmt; } while (0)
+
+#else /* UNCRUSTIFY_VERIF */
+
+#define VERIF_HOOK(stmt)    do {} while (0)
+
+#endif /* UNCRUSTIFY_VERIF */
+
+#endif /* VERIF_HOOKS_H_INCLUDED */
